@@ -22,14 +22,14 @@ PIsSym(n) == n < 0
 
 Live(o)       == {h \in PH : o.hd[h].k # "D"}
 Holders(o, b) == {h \in PH : o.hd[h].k = "H" /\ o.hd[h].pid = b}
-Failed(c)     == c.cls = "err" \/ (c.cls = "panic" /\ c.msg = "reserve")
+Failed(c)     == (c.cls = "err" /\ c.msg = "reserve") \/ (c.cls = "panic" /\ c.msg = "reserve")
 T(c)          == c.h
 
-IterOps   == {"extend", "collect"}
+IterOps   == {"extend", "collect", "display"}
 SizedOps  == {"with_capacity", "reserve", "shrink_to", "extend", "collect"}
 CloneOps  == {"clone", "clone_from"}
 TextCtors == {"from_str", "from_char"}
-Ctors     == {"new", "from_str", "from_static", "with_capacity", "from_char", "clone", "collect"}
+Ctors     == {"new", "from_str", "from_static", "with_capacity", "from_char", "clone", "collect", "display"}
 EditOps   == {"push_str", "insert_str", "pop", "remove", "retain", "truncate", "clear"}
 AppendOps == {"push_str", "insert_str"}
 IndexOps  == {"insert_str", "remove", "truncate"}
@@ -89,7 +89,7 @@ TargetAfterFailure(o, p, c) ==
   ELSE p.hd[T(c)].k # "D" /\ p.hd[T(c)].text = o.hd[T(c)].text
 FailAtomic(o, p, c) ==                                                         \* C05
   c.inj =>
-    /\ c.op \notin IterOps => (Failed(c) /\ c.cls = (IF c.t = 1 THEN "err" ELSE "panic"))
+    /\ c.op \notin (IterOps \ {"display"}) => (Failed(c) /\ c.cls = (IF c.t = 1 THEN "err" ELSE "panic"))
     /\ c.cls # "err" \/ c.t = 1
     /\ OthersKeepText(o, p, c)
     /\ Failed(c) => TargetAfterFailure(o, p, c)
@@ -165,6 +165,9 @@ CallbackPanicOK(o, p, c, tx1) ==                                               \
   (c.cls = "panic" /\ c.msg = "callback") =>
      (TextOK(p, tx1) /\ Isolation(o, p, c) /\ RcOK(p) /\ BlocksOK(p))
 
+\* equality, ordering, hashing, formatting: functions of the text alone (C17)
+TextOnly(c, a) == c.op = "compare" => (c.cls = "ok" /\ c.val = a.val)
+
 \* --------------------------------------------------------------- the table
 PredTable(o, p, c, a, tx0, tx1) ==
   [TextOK |-> TextOK(p, tx1), Utf8OK |-> Utf8OK(p), CapOK |-> CapOK(p), RcOK |-> RcOK(p),
@@ -175,7 +178,7 @@ PredTable(o, p, c, a, tx0, tx1) ==
    SizeSafe |-> SizeSafe(o, p, c), CloneCheap |-> CloneCheap(o, p, c), CtorStorage |-> CtorStorage(p, c, a),
    InlineEdit |-> InlineEdit(o, p, c), StaticBorrow |-> StaticBorrow(o, p, c), WithCap |-> WithCap(p, c),
    ReservePost |-> ReservePost(o, p, c), NoReallocInCap |-> NoReallocInCap(o, p, c), Growth |-> Growth(o, p, c),
-   ShrinkPost |-> ShrinkPost(o, p, c), CallbackPanicOK |-> CallbackPanicOK(o, p, c, tx1)]
+   ShrinkPost |-> ShrinkPost(o, p, c), CallbackPanicOK |-> CallbackPanicOK(o, p, c, tx1), TextOnly |-> TextOnly(c, a)]
 Failing(o, p, c, a, tx0, tx1) ==
   LET tb == PredTable(o, p, c, a, tx0, tx1) IN {n \in DOMAIN tb : ~tb[n]}
 
@@ -183,7 +186,7 @@ Failing(o, p, c, a, tx0, tx1) ==
 Exercised(o, p, c) ==
   {n \in {"RejectedIsNoop", "FailAtomic", "SizeSafe", "CloneCheap", "CtorStorage", "InlineEdit", "StaticBorrow",
           "WithCap", "ReservePost", "NoReallocInCap", "Growth", "ShrinkPost", "CallbackPanicOK", "Isolation",
-          "NoResizeShared"} :
+          "NoResizeShared", "TextOnly", "TextOnlySame"} :
      CASE n = "RejectedIsNoop" -> c.cls = "panic" /\ c.msg = "index"
        [] n = "FailAtomic" -> c.inj
        [] n = "SizeSafe" -> c.op \in SizedOps /\ Failed(c)
@@ -197,6 +200,9 @@ Exercised(o, p, c) ==
        [] n = "Growth" -> c.op \in (AppendOps \cup {"reserve"}) /\ c.cls = "ok" /\ c.dA + c.dR > 0 /\ p.hd[T(c)].k = "H"
        [] n = "ShrinkPost" -> c.op = "shrink_to" /\ o.hd[T(c)].k = "H"
        [] n = "CallbackPanicOK" -> c.cls = "panic" /\ c.msg = "callback"
+       [] n = "TextOnly" -> c.op = "compare"
+       [] n = "TextOnlySame" -> c.op = "compare" /\ o.hd[T(c)].text = o.hd[c.g].text
+                                 /\ (o.hd[T(c)].k # o.hd[c.g].k \/ o.hd[T(c)].cap # o.hd[c.g].cap \/ o.hd[T(c)].rc # o.hd[c.g].rc)
        [] n = "Isolation" -> \E g \in Live(o) \ {T(c)} : o.hd[g].k \in {"H", "S"} /\ o.hd[T(c)].k = o.hd[g].k /\ o.hd[g].pid = o.hd[T(c)].pid
        [] n = "NoResizeShared" -> \E b \in PB : o.blk[b] > 0 /\ Holders(o, b) \ {T(c)} # {} /\ T(c) \in Holders(o, b)
        [] OTHER -> FALSE}
